@@ -18,6 +18,7 @@ from .base import MachineMixin, Violation
 
 SAMPLER_CLASS = {"smc": "MiniPCNSMC", "minipcn_smc": "MiniPCNSMC", "emcee_smc": "EmceeSMC", "importance": "ImportanceSampler"}
 MAX_PROCS = 2
+EMCEE_KW = {"nsteps": 1, "progress": False}
 
 
 class Interp:
@@ -128,6 +129,8 @@ class Interp:
         try:
             if getattr(B, "_resume_sampler_type", None) in ("smc", "minipcn_smc"):
                 out, hist = B.sample_posterior(sampler_kwargs={"n_steps": 1}, rng=make_generator(99), return_history=True)
+            elif getattr(B, "_resume_sampler_type", None) == "emcee_smc":
+                out, hist = B.sample_posterior(sampler_kwargs=dict(EMCEE_KW), return_history=True)
             else:
                 out, hist = B.sample_posterior(n_samples=16), None
         except Exception as e:  # noqa: BLE001
@@ -186,6 +189,8 @@ class Interp:
         kw = {}
         if sampler == "smc":
             kw.update(sampler_kwargs={"n_steps": 1}, rng=make_generator(7 + len(self.ops)), target_efficiency=0.8)
+        elif sampler == "emcee_smc":
+            kw.update(sampler_kwargs=dict(EMCEE_KW), target_efficiency=0.8)
         if explicit_path:
             kw["checkpoint_path"] = self.path
         m = p["model"]
@@ -200,22 +205,35 @@ class Interp:
             m.crash_like_at = None
         self.audit(where)
 
-    def op_resume_and_sample(self, in_context):
-        self.ops.append(("resume_and_sample", dict(in_context=in_context)))
+    def op_resume_and_sample(self, in_context, sampler=None, override_at="ctor"):
+        self.ops.append(("resume_and_sample", dict(in_context=in_context, sampler=sampler, override_at=override_at)))
         from aspire import Aspire
 
         if not os.path.exists(self.path):
             return
         m = Model(self.target, Trace())
         try:
-            B = Aspire.resume_from_file(self.path, log_likelihood=SimLikelihood(m), log_prior=SimPrior(m))
+            ckw = {"sampler": sampler} if (sampler is not None and override_at == "ctor") else {}
+            B = Aspire.resume_from_file(self.path, log_likelihood=SimLikelihood(m), log_prior=SimPrior(m), **ckw)
         except ValueError as e:
             if "not found" in str(e):
                 return
             raise
         w = {"after": "resume_and_sample"}
-        smc = getattr(B, "_resume_sampler_type", None) in ("smc", "minipcn_smc")
-        kw = dict(sampler_kwargs={"n_steps": 1}, rng=make_generator(3)) if smc else {"n_samples": 12}
+        primed = getattr(B, "_resume_sampler_type", None)
+        if sampler is not None and primed not in ("smc", "minipcn_smc", "emcee_smc"):
+            sampler = None  # nothing to continue with another SMC sampler (no SMC checkpoint in the file)
+        now = sampler or primed
+        if now in ("smc", "minipcn_smc"):
+            kw = dict(sampler_kwargs={"n_steps": 1}, rng=make_generator(3))
+        elif now == "emcee_smc":
+            kw = dict(sampler_kwargs=dict(EMCEE_KW))
+        else:
+            kw = {"n_samples": 12}
+        if sampler is not None and override_at == "sample":
+            kw["sampler"] = sampler
+        if sampler is not None and sampler != primed:
+            self.col.fault("resume_with_other_sampler")
         try:
             if in_context:
                 with B.auto_checkpoint(self.path, every=1):
@@ -270,14 +288,14 @@ def make_machine(interp_factory, workdir, col):
         def exit_auto(self, proc):
             self.do("exit_auto", proc=proc)
 
-        @rule(proc=st.integers(0, 1), sampler=st.sampled_from(["smc", "smc", "importance"]), explicit_path=st.booleans(),
+        @rule(proc=st.integers(0, 1), sampler=st.sampled_from(["smc", "smc", "importance", "emcee_smc"]), explicit_path=st.booleans(),
               crash_at=st.one_of(st.none(), st.none(), st.integers(0, 6)))
         def sample(self, proc, sampler, explicit_path, crash_at):
             self.do("sample", proc=proc, sampler=sampler, explicit_path=explicit_path, crash_at=crash_at)
 
-        @rule(in_context=st.booleans())
-        def resume_and_sample(self, in_context):
-            self.do("resume_and_sample", in_context=in_context)
+        @rule(in_context=st.booleans(), sampler=st.sampled_from([None, None, "smc", "emcee_smc"]), override_at=st.sampled_from(["ctor", "sample"]))
+        def resume_and_sample(self, in_context, sampler, override_at):
+            self.do("resume_and_sample", in_context=in_context, sampler=sampler, override_at=override_at)
 
         def teardown(self):
             self.finish_example(col)
